@@ -13,7 +13,9 @@ angle j to vertex face[j]; cotan_laplacian_triplets charges cot(angle j) to face
 weight to both end vertices' diagonals and emits -w symmetrically at (e0,e1) and (e1,e0); (EXPR barycentric agreement)
 UvMapping::point and Mesh::uv_to_3d both form a*bc[0] + b*bc[1] + c*bc[2] on the triangle with the id the lookup returned;
 uv_with_tol maps the barycentric location of the projected face through uv_map.point(id, ..) and measures depth along that face's
-normal, with the transform applied once."""
+normal, with the transform applied once.
+interior_barycentric rejects exactly under det == 0 (the determinant the weights are divided by); the face list of Mesh.shape changes only while
+neither mesh carries a UV map."""
 NOT_DECIDED = "isometry on planar disks, no folding, rigid-motion invariance (numerical linear algebra: laplacian_set, dirichlet_boundary, best_fit_curve, extend_curve are not analysed beyond calc_extend_uv_xs and invert_2x2); genus (a one-boundary surface of higher genus is not rejected)"
 ASSUMPTIONS = ["faer solves / factorisations are trusted"]
 
